@@ -178,7 +178,10 @@ def inside(span, line, col):
     return (l0, c0) <= (line, col) < (l1, c1)
 
 
-def judge(v, text, N, sort, ns):
+USER_TEXTS = ('note', 'rest is in {settings}', 'defaults to {}', '}', '{0} %s %(x)d', 'a\\b $HOME')
+
+
+def judge(v, text, N, sort, ns, user=None):
     try:
         tree = oracles.parse_expr(text)
         got = eval(compile(tree, '<out>', 'eval'), dict(ns))
@@ -196,6 +199,11 @@ def judge(v, text, N, sort, ns):
             if inside(span, line, col):
                 if owner is None or spans[owner][0][:2] <= span[:2]:
                     owner = i          # innermost = latest-starting containing span
+        if user is not None and ' '.join(user.split()) in ' '.join(s.split()):
+            rest = ' '.join(s.split()).replace(' '.join(user.split()), '', 1).strip()
+            if not rest.strip(' .'):
+                continue            # the user's own comment, alone
+            ks = [int(m) for m in NOTICE.findall(rest)]
         if not ks:
             return 'unexpected-comment', s
         if owner is None:
@@ -208,18 +216,22 @@ def judge(v, text, N, sort, ns):
     return 'ok', None
 
 
-def check_value(v, part, Ns, widths):
+def check_value(v, part, Ns, widths, wrap=None, user=None):
+    """wrap/user: print wrap(v) - v under a user comment with text `user` - and judge it as v."""
     ns = fixtures.namespace()
     expr = oracles.expr_of(v)
+    plain, v_printed = v, (wrap(v) if wrap else v)
     sorts = (False, True) if any(isinstance(x, dict) for x in walk(v)) else (False,)
     for w in widths:
         for sort in sorts:
-            big = oracles.run_pformat(v, max_seq_len=10 ** 6, width=w, sort_dict_keys=sort)
+            big = oracles.run_pformat(v_printed, max_seq_len=10 ** 6, width=w, sort_dict_keys=sort)
             for N in Ns:
                 part.n += 1
                 cfg = {'max_seq_len': N, 'width': w, 'sort_dict_keys': sort}
                 case = {'value': expr if len(expr) < 400 else expr[:100] + '...(len %d)' % len(v), 'config': cfg}
-                r = oracles.run_pformat(v, **cfg)
+                if user is not None:
+                    case['user_comment'] = [wrap.__name__, user]
+                r = oracles.run_pformat(v_printed, **cfg)
                 if r.exc is not None:
                     part.violation('exception', case, r.exc)
                     continue
@@ -230,7 +242,9 @@ def check_value(v, part, Ns, widths):
                     if r.text != big.text:
                         part.violation('none-differs-from-large-limit', case, {'none': r.text[:300], 'large': (big.text or '')[:300]})
                     continue
-                kind, why = judge(v, r.text, N, sort, ns)
+                kind, why = judge(v, r.text, N, sort, ns, user)
+                if kind == 'ok' and user is not None and ' '.join(' '.join(x[3] for x in notices(r.text)).split()).count(' '.join(user.split())) != 1:
+                    kind, why = 'user-comment-lost', user
                 if kind != 'ok':
                     part.violation(kind, case, {'output': r.text[:600], 'why': why})
                 if NOTICE.search(r.text):
@@ -248,9 +262,34 @@ def walk(v):
             yield from walk(x)
 
 
+def commented_cases():
+    from prettyprinter import comment, trailing_comment
+
+    def tc_outer(text):
+        def trailing_comment_outer(v):
+            return trailing_comment(v, text)
+        return trailing_comment_outer
+
+    def c_outer(text):
+        def comment_outer(v):
+            return comment(v, text)
+        return comment_outer
+    bases = [[1, 2, 3], (1, 2, 3), {1, 2, 3}, {'a': 1, 'b': 2, 'c': 3}, [[1, 2, 3], 4, 5], [1], {}]
+    for text in USER_TEXTS:
+        for b in bases:
+            if b:
+                yield b, tc_outer(text), text       # trailing_comment needs a non-empty container to attach to
+            yield b, c_outer(text), text
+
+
 def work(item):
     kind, lo, hi = item
     part = core.Part()
+    if kind == 'commented':
+        for v, wrap, text in commented_cases():
+            check_value(v, part, (1, 2, 3, None, 10 ** 6), (20, 79), wrap=wrap, user=text)
+            part.c['commented_values'] += 1
+        return part
     if kind == 'trees':
         for v in itertools.islice(gen_values(), lo, hi):
             check_value(v, part, (1, 2, 3, 4, 5, None, 10 ** 6), (20, 79))
@@ -270,6 +309,7 @@ def run(tier, seed):
     items = [('trees', lo, hi) for lo, hi in core.chunks(total, 96)]
     nf = sum(1 for _ in family_values())
     items += [('family', lo, hi) for lo, hi in core.chunks(nf, nf)]
+    items.append(('commented', 0, 0))
     res.add(core.pmap(work, items))
     res.coverage = {
         'exhaustive': True,
@@ -277,6 +317,9 @@ def run(tier, seed):
                 'x N in {1..5, None, 10**6} x widths {20,79} x sort_dict_keys; families of length 150/151/1000/1001 '
                 'at N in {150, 1000, None, 10**6}; non-trivial = cases whose output carries a truncation notice',
         'values': total, 'family_values': nf,
+        'commented': '%d containers under a user comment / trailing comment whose text is one of %r (braces, percent and '
+                     'backslash forms included) x N in {1,2,3,None,10**6} x widths {20,79}: same truncation, same notice, '
+                     'the user text kept once' % (sum(1 for _ in commented_cases()), list(USER_TEXTS)),
     }
     res.assumptions = ['AST spans (lineno/col_offset) attribute a comment to the innermost enclosing literal']
     return res
@@ -289,8 +332,15 @@ def replay(case):
     v = eval(case['value'], env)
     part = core.Part()
     cfg = case['config']
-    check_value(v, part, (cfg['max_seq_len'],), (cfg['width'],))
-    r = oracles.run_pformat(v, **cfg)
+    wrap = user = None
+    if case.get('user_comment'):
+        import prettyprinter
+        fn = getattr(prettyprinter, case['user_comment'][0].replace('_outer', ''))
+        user = case['user_comment'][1]
+        wrap = lambda x: fn(x, user)     # noqa
+        wrap.__name__ = case['user_comment'][0]
+    check_value(v, part, (cfg['max_seq_len'],), (cfg['width'],), wrap=wrap, user=user)
+    r = oracles.run_pformat(wrap(v) if wrap else v, **cfg)
     lines = ['value: %s' % case['value'], 'config: %s' % cfg, 'output:', str(r.text), 'exc: %s warnings: %s' % (r.exc, r.warnings)]
     mine = [x for x in part.violations if x['case']['config'] == cfg]
     for x in mine:
